@@ -116,7 +116,7 @@ func values(name string) []interface{} {
 	switch name {
 	case "S":
 		// incl. values longer than a bufio buffer (4096) once written as "S: ..."
-		out := []interface{}{"", "x", "two words", strings.Repeat("long ", 900) + "end", strings.Repeat("x", 4093), strings.Repeat("y", 8200)}
+		out := []interface{}{"", "x", "two words", strings.Repeat("long ", 900) + "end", strings.Repeat("x", 4093), strings.Repeat("y", 8200), "100% of %s, a%20b %d%%"}
 		for _, t := range gen.AuditStrings(func(s string) bool { return gen.OneLine(s) && strings.TrimSpace(s) == s }, 3) {
 			out = append(out, t) // alphabet audit
 		}
@@ -153,7 +153,7 @@ func values(name string) []interface{} {
 		}
 		return out
 	case "LC":
-		return []interface{}{[]string(nil), []string{"a b"}, []string{"a b", "c"}}
+		return []interface{}{[]string(nil), []string{"a b"}, []string{"a b", "c"}, []string{"50%", "%v b"}}
 	case "LN":
 		return []interface{}{[]string(nil), []string{"l1"}, []string{"l1", "l 2"}}
 	case "LI":
@@ -421,6 +421,19 @@ func check(scen string, in In) []*mc.Violation {
 			vs = append(vs, mc.V(scen, "unmarshal-returns", in, "no panic", "panic: "+msg, feats...))
 		} else if err == nil {
 			vs = append(vs, mc.V(scen, "required-absence-is-error", in, "error when "+n+" is missing", fmt.Sprintf("accepted %q", cut), feats...))
+		} else {
+			// ... and also when the value decoded into already holds one: a document that lacks a required field is
+			// refused whatever the target held (the complete document was decoded into it just before)
+			f3 := reflect.New(ov.Type())
+			var e1, e2 error
+			if p, msg := mc.Guard(func() {
+				e1 = control.Unmarshal(f3.Interface(), strings.NewReader(text))
+				e2 = control.Unmarshal(f3.Interface(), strings.NewReader(cut))
+			}); p {
+				vs = append(vs, mc.V(scen, "unmarshal-returns", in, "no panic", "panic: "+msg, feats...))
+			} else if e1 == nil && e2 == nil {
+				vs = append(vs, mc.V(scen, "required-absence-is-error", in, "error when "+n+" is missing", fmt.Sprintf("accepted %q when decoded into a value that already held the complete document", cut), feats...))
+			}
 		}
 	}
 	return vs
@@ -866,7 +879,7 @@ func Run(r *mc.Run) {
 
 	// pass-through
 	known := [][2]string{{"Known1", "k one"}, {"Known-Two", "a, b"}, {"Known-3", "1:2.0-1"}}
-	unknown := [][2]string{{"X-Extra", "u1"}, {"Zeta", "u 2"}}
+	unknown := [][2]string{{"X-Extra", "u1 100%"}, {"Zeta", "u 2 %s %d a%20b"}} // per cent signs: text, not format verbs
 	// unknown fields whose names differ from a known key only in letter case are unknown fields all the same
 	unknownML := [][2]string{{"X-Extra", "u1\n more Ren\xe9 M\xfcller\n .\n last\n ."}, {"Zeta", "\n line one\n .\n .\n\tline four\n ."}}
 	unknownK := [][2]string{{"\u212anown1", "kelvin 1"}, {"\u212anown-Two", "kelvin 2"}}
